@@ -1651,11 +1651,11 @@ func (vm *Thread) stackAddRaw(ptr uintptr, n uintptr) uintptr {
 }
 
 func (vm *Thread) stackOffsetFromTo(from *value.Value, to *value.Value) int {
-	return int(uintptr(unsafe.Pointer(from))-uintptr(unsafe.Pointer(to))) / int(value.ValueSize)
+	return int(uintptr(unsafe.Pointer(to))-uintptr(unsafe.Pointer(from))) / int(value.ValueSize)
 }
 
 func (vm *Thread) stackOffsetFromToRaw(from, to uintptr) int {
-	return int(from-to) / int(value.ValueSize)
+	return int(to-from) / int(value.ValueSize)
 }
 
 func (vm *Thread) fpOffset() int {
@@ -2268,25 +2268,21 @@ func (vm *Thread) growValueStack() {
 	fpOffset := uintptr(vm.fpOffset())
 	spOffset := uintptr(vm.spOffset())
 
+	oldStackEnd := oldStackPtr + uintptr(len(vm.stack))*value.ValueSize
+
 	for i := range vm.callFrames {
 		cf := &vm.callFrames[i]
-		offset := uintptr(vm.stackOffsetFromToRaw(oldStackPtr, cf.fp))
-		cf.fp = vm.stackAddRaw(newStackPtr, offset)
-		for _, upvalue := range cf.upvalues {
-			if upvalue.IsClosed() {
-				continue
-			}
-
-			offset := vm.stackOffsetFromTo(&vm.stack[0], upvalue.slot)
-			upvalue.slot = vm.stackAdd(&newStack[0], offset)
-		}
-	}
-
-	for _, upvalue := range vm.upvalues {
-		if upvalue.IsClosed() {
+		// skip native frames (their fp holds a symbol) and stale
+		// frames that do not point into the current stack
+		if cf.isNative || cf.fp < oldStackPtr || cf.fp >= oldStackEnd {
 			continue
 		}
+		offset := uintptr(vm.stackOffsetFromToRaw(oldStackPtr, cf.fp))
+		cf.fp = vm.stackAddRaw(newStackPtr, offset)
+	}
 
+	// every open upvalue lives on the open upvalue list exactly once
+	for upvalue := vm.openUpvalueHead; upvalue != nil; upvalue = upvalue.next {
 		offset := vm.stackOffsetFromTo(&vm.stack[0], upvalue.slot)
 		upvalue.slot = vm.stackAdd(&newStack[0], offset)
 	}
